@@ -257,6 +257,9 @@ func (d *decoder) decode() (Item, error) {
 		if acc != big.Exact {
 			return nil, fmt.Errorf("%w (integer)", ErrInvalidValue)
 		}
+		if err := CheckIntegerSize(num); err != nil {
+			return nil, fmt.Errorf("%w (%w)", ErrInvalidValue, err)
+		}
 		return NewBigInteger(num), nil
 	case bool:
 		return NewBool(t), nil
